@@ -5,8 +5,14 @@
   non-authoritative local records are returned exactly.
 -/
 import Resolved.Model.Resolver
+import Resolved.Proofs.ResolverLocalLemmas
+import Resolved.Proofs.ResolverLocalZones
+import Resolved.Proofs.ResolverLocalExamples
+import Resolved.Proofs.ResolverLocalModes
 
 namespace Resolved
+
+open Gen
 
 /-- A name error is reported only when local resolution itself ended in an authoritative name
     error: no other local outcome (partial, delegation, CNAME) converts into one. -/
@@ -36,5 +42,428 @@ theorem C01_prioritising_merge (priority new : List RR) :
     intro p hp ⟨hn, ht⟩
     simp only [Bool.not_eq_true', List.any_eq_false, Bool.and_eq_true, beq_iff_eq, not_and] at h2
     exact h2 p hp hn ht
+
+/-! ## 1. An authoritative zone's word is final, whatever the cache holds
+
+  Notation of the statements: `ctx.zones.resolve q.name q.qtype = some (z, some zr)` says that `z`
+  is the most specific configured zone enclosing `q.name` (`Zones::get`, see `C01_longest_suffix`)
+  and `zr` its verdict; `z.soaRR = some soa` says it is authoritative. -/
+
+/-- An authoritative zone's answer is the whole local result: authoritative, carrying the zone's
+    SOA, with exactly the zone's records; the context (in particular the cache) is returned
+    untouched.  The right-hand side mentions neither the cache nor the clock. -/
+theorem C01_auth_answer_independent (fuel : Nat) (ctx : Ctx) (q : Question) (z : Zone) (rrs : List RR)
+    (soa : RR) (hl : ctx.stack.length ≠ RECURSION_LIMIT) (hd : q ∉ ctx.stack)
+    (hz : ctx.zones.resolve q.name q.qtype = some (z, some (.answer rrs))) (hs : z.soaRR = some soa) :
+    resolveLocal (fuel + 1) ctx q = (ctx, .ok (.done (.authoritative rrs soa))) := by
+  rw [resolveLocal_succ]; exact localStep_zone_answer_auth hl hd hz hs
+
+/-- … so two contexts that differ only in cache contents and clock reading get the same reply. -/
+theorem C01_auth_answer_any_cache (fuel fuel' : Nat) (ctx ctx' : Ctx) (q : Question) (z : Zone)
+    (rrs : List RR) (soa : RR) (hl : ctx.stack.length ≠ RECURSION_LIMIT) (hd : q ∉ ctx.stack)
+    (hz : ctx.zones.resolve q.name q.qtype = some (z, some (.answer rrs))) (hs : z.soaRR = some soa)
+    (hzones : ctx'.zones = ctx.zones) (hstack : ctx'.stack = ctx.stack) :
+    (resolveLocal (fuel' + 1) ctx' q).2 = (resolveLocal (fuel + 1) ctx q).2 := by
+  rw [C01_auth_answer_independent fuel ctx q z rrs soa hl hd hz hs,
+    C01_auth_answer_independent fuel' ctx' q z rrs soa (hstack ▸ hl) (hstack ▸ hd) (hzones ▸ hz) hs]
+
+/-- A name the authoritative zone does not define is a name error carrying the zone's SOA;
+    the cache is neither read nor written. -/
+theorem C01_auth_nameerror (fuel : Nat) (ctx : Ctx) (q : Question) (z : Zone) (soa : RR)
+    (hl : ctx.stack.length ≠ RECURSION_LIMIT) (hd : q ∉ ctx.stack)
+    (hz : ctx.zones.resolve q.name q.qtype = some (z, some .nameError)) (hs : z.soaRR = some soa) :
+    resolveLocal (fuel + 1) ctx q = (ctx, .ok (.done (.authoritativeNameError soa))) := by
+  rw [resolveLocal_succ]; exact localStep_zone_nameError_auth hl hd hz hs
+
+theorem C01_auth_nameerror_any_cache (fuel fuel' : Nat) (ctx ctx' : Ctx) (q : Question) (z : Zone)
+    (soa : RR) (hl : ctx.stack.length ≠ RECURSION_LIMIT) (hd : q ∉ ctx.stack)
+    (hz : ctx.zones.resolve q.name q.qtype = some (z, some .nameError)) (hs : z.soaRR = some soa)
+    (hzones : ctx'.zones = ctx.zones) (hstack : ctx'.stack = ctx.stack) :
+    (resolveLocal (fuel' + 1) ctx' q).2 = (resolveLocal (fuel + 1) ctx q).2 := by
+  rw [C01_auth_nameerror fuel ctx q z soa hl hd hz hs,
+    C01_auth_nameerror fuel' ctx' q z soa (hstack ▸ hl) (hstack ▸ hd) (hzones ▸ hz) hs]
+
+/-- Authoritative-only mode (`is_recursive = false`): the reply is the zone's answer / name error,
+    marked authoritative, with the zone's SOA. -/
+theorem C01_auth_only_mode (ctx : Ctx) (q : Question) (z : Zone) (soa : RR)
+    (hl : ctx.stack.length ≠ RECURSION_LIMIT) (hd : q ∉ ctx.stack) (hs : z.soaRR = some soa) :
+    (∀ rrs, ctx.zones.resolve q.name q.qtype = some (z, some (.answer rrs)) →
+      resolveAuthoritativeOnly ctx q = (ctx, .ok (.authoritative rrs soa))) ∧
+    (ctx.zones.resolve q.name q.qtype = some (z, some .nameError) →
+      resolveAuthoritativeOnly ctx q = (ctx, .ok (.authoritativeNameError soa))) := by
+  constructor
+  · intro rrs hz
+    unfold resolveAuthoritativeOnly
+    rw [C01_auth_answer_independent _ ctx q z rrs soa hl hd hz hs]; rfl
+  · intro hz
+    unfold resolveAuthoritativeOnly
+    rw [C01_auth_nameerror _ ctx q z soa hl hd hz hs]; rfl
+
+/-! ## 2. Records of a hosts file / non-authoritative zone are returned exactly -/
+
+/-- A non-authoritative zone (hosts file, SOA-less zone file) holding records of the asked name
+    and (non-ANY) type: exactly those records are returned; the cache is neither read nor written,
+    so cached records of the same name and type are never added or substituted. -/
+theorem C01_nonauth_exact (fuel : Nat) (ctx : Ctx) (q : Question) (z : Zone) (rrs : List RR)
+    (hl : ctx.stack.length ≠ RECURSION_LIMIT) (hd : q ∉ ctx.stack)
+    (hz : ctx.zones.resolve q.name q.qtype = some (z, some (.answer rrs))) (hs : z.soaRR = none)
+    (hq : q.qtype ≠ QTYPE_WILDCARD) (hne : rrs ≠ []) :
+    resolveLocal (fuel + 1) ctx q = (ctx, .ok (.done (.nonAuthoritative rrs none))) := by
+  rw [resolveLocal_succ]; exact localStep_zone_answer_nonauth hl hd hz hs hq hne
+
+/-- For an ANY question the non-authoritative zone's records come first, whole and in order, and
+    every record added after them (from the cache, possibly through a cached alias) has a
+    (name, type) pair that no zone record has. -/
+theorem C01_nonauth_any (fuel : Nat) (ctx : Ctx) (q : Question) (z : Zone) (rrs : List RR)
+    (hl : ctx.stack.length ≠ RECURSION_LIMIT) (hd : q ∉ ctx.stack)
+    (hz : ctx.zones.resolve q.name q.qtype = some (z, some (.answer rrs))) (hs : z.soaRR = none)
+    (hq : q.qtype = QTYPE_WILDCARD) (r : LocalResult)
+    (hr : (resolveLocal (fuel + 1) ctx q).2 = .ok r) :
+    ∃ extra, r.toResolved.rrs = rrs ++ extra ∧
+      ∀ e ∈ extra, ∀ p ∈ rrs, ¬ (p.name = e.name ∧ p.rtype = e.rtype) := by
+  rw [resolveLocal_succ, localStep_zone_answer_nonauth_any hl hd hz hs hq] at hr
+  unfold cacheStage at hr
+  obtain ⟨rc, fc, _, hrrs⟩ := finishPart_ok_rrs hr
+  rw [hrrs]
+  refine ⟨_, rfl, ?_⟩
+  intro e he p hp
+  have := (C01_prioritising_merge rrs rc).2 e (by unfold prioritisingMerge; exact List.mem_append_right _ he)
+  simp only [List.mem_filter] at he
+  intro ⟨hn, ht⟩
+  have h2 := he.2
+  simp only [Bool.not_eq_true', List.any_eq_false, Bool.and_eq_true, beq_iff_eq, not_and] at h2
+  exact h2 p hp hn ht
+
+/-! ## 3. A name error is only ever reported on the word of an authoritative local zone -/
+
+/-- Whatever the fuel, stack, cache and clock: if local resolution ends in a result that converts
+    into an authoritative name error, then the most specific zone enclosing the name is
+    authoritative (its SOA is the one reported) and itself said "name error".  (An alias whose
+    target does not exist yields `.authoritative [cname] soa`, not a name error.) -/
+theorem C01_nameerror_only_authoritative (fuel : Nat) (ctx : Ctx) (q : Question) (r : LocalResult)
+    (soa : RR) (hr : (resolveLocal fuel ctx q).2 = .ok r)
+    (h : r.toResolved = .authoritativeNameError soa) :
+    ∃ z, ctx.zones.resolve q.name q.qtype = some (z, some .nameError) ∧ z.soaRR = some soa := by
+  have hr' := C01_nameerror_only_from_authoritative_local r soa h
+  subst hr'
+  cases fuel with
+  | zero => rw [resolveLocal_zero] at hr; cases hr
+  | succ n => rw [resolveLocal_succ] at hr; exact localStep_nameError hr
+
+/-- the same for authoritative-only mode. -/
+theorem C01_nameerror_only_authoritative_mode (ctx : Ctx) (q : Question) (soa : RR)
+    (h : (resolveAuthoritativeOnly ctx q).2 = .ok (.authoritativeNameError soa)) :
+    ∃ z, ctx.zones.resolve q.name q.qtype = some (z, some .nameError) ∧ z.soaRR = some soa := by
+  unfold resolveAuthoritativeOnly at h
+  simp only at h
+  cases hr : (resolveLocal (RECURSION_LIMIT + 1) ctx q).2 with
+  | error e => rw [hr] at h; cases h
+  | ok r =>
+    rw [hr] at h
+    simp only [Except.map, Except.ok.injEq] at h
+    exact C01_nameerror_only_authoritative _ ctx q r soa hr h
+
+/-! ## 4. "The most specific configured zone": `Zones::get` picks the longest matching apex
+
+  `ZonesKeyed zs` — every zone is stored under its own apex — holds of `Zones::new()` and is kept
+  by `Zones::insert` and `Zones::insert_merge` (`C01_zones_keyed`). -/
+
+theorem C01_zones_keyed :
+    ZonesKeyed Zones.empty ∧
+    (∀ zs z, ZonesKeyed zs → ZonesKeyed (zs.insert z)) ∧
+    (∀ zs other zs', ZonesKeyed zs → zs.insertMerge other = some zs' → ZonesKeyed zs') :=
+  ⟨zonesKeyed_empty, fun _ z h => zonesKeyed_insert h z, fun _ other _ h hm => zonesKeyed_insertMerge h other hm⟩
+
+/-- The zone `Zones::get` selects for a name is configured under its apex, its apex is a (label-)
+    suffix of the name, and no configured apex (a name `from_labels` builds) that is a suffix of
+    the name has more labels: the selected zone is the most specific enclosing one, and less
+    specific zones are never consulted (`Zones::resolve` asks only this zone). -/
+theorem C01_longest_suffix (zs : Zones) (hk : ZonesKeyed zs) (name : Name) (z : Zone)
+    (h : zs.get name = some z) :
+    Zones.lookup zs.zones z.apex = some z ∧ z.apex.labels <:+ name.labels ∧
+    name.isSubdomainOf z.apex = true ∧
+    ∀ k z', Zones.lookup zs.zones k = some z' → Name.fromLabels k.labels = some k →
+      k.labels <:+ name.labels → k.labels.length ≤ z.apex.labels.length := by
+  obtain ⟨suf, n, hs, _, hf, hl, hmax⟩ := Zones.getLoop_some zs name.labels z h
+  have hap : z.apex = n := hk n z hl
+  have hlab : n.labels = suf := ZNode.fromLabels_labels hf
+  refine ⟨by rw [hap]; exact hl, by rw [hap, hlab]; exact hs, ?_, ?_⟩
+  · simp only [Name.isSubdomainOf, List.isSuffixOf_iff_suffix]
+    rw [hap, hlab]; exact hs
+  · intro k z' hl' hok hsuf
+    rw [hap, hlab]
+    by_cases hlt : suf.length < k.labels.length
+    · have := hmax k.labels hsuf hlt
+      rw [hok] at this
+      simp only [Option.bind_some] at this
+      rw [hl'] at this; cases this
+    · omega
+
+/-- the zone `Zones::resolve` asks is the one `Zones::get` selects, and it always has a verdict
+    (the `unwrap()` in `Zones::resolve` cannot fail) when zones are keyed by apex. -/
+theorem C01_resolve_uses_selected_zone (zs : Zones) (hk : ZonesKeyed zs) (name : Name) (qtype : Nat)
+    (z : Zone) (o : Option ZoneResult) (h : zs.resolve name qtype = some (z, o)) :
+    zs.get name = some z ∧ ∃ zr, o = some zr := by
+  have hg := Zones.resolve_get h
+  refine ⟨hg, ?_⟩
+  obtain ⟨_, _, hsub, _⟩ := C01_longest_suffix zs hk name z hg
+  unfold Zones.resolve at h
+  simp only [hg, Option.map_some, Option.some.injEq, Prod.mk.injEq, true_and] at h
+  subst h
+  unfold Zone.resolve Zone.relativeDomain
+  simp [hsub]
+
+/-! ## 6. Local referrals -/
+
+/-- A local referral comes from the delegation verdict of an authoritative zone: it carries that
+    zone's SOA, a non-empty set of records all owned by the delegation point `d.name`, and the
+    name servers to ask are exactly those records' NS targets.  Under (H-zone) they are NS
+    records. -/
+theorem C01_delegation_shape (fuel : Nat) (ctx : Ctx) (q : Question) (rrs : List RR) (s : Option RR)
+    (d : Nameservers) (h : (resolveLocal fuel ctx q).2 = .ok (.delegation rrs s d)) :
+    ∃ z soa, s = some soa ∧ z.soaRR = some soa ∧
+      ctx.zones.resolve q.name q.qtype = some (z, some (.delegation rrs)) ∧
+      rrs ≠ [] ∧ (∀ rr ∈ rrs, rr.name = d.name) ∧ d.hostnames = rrs.filterMap nsTarget ∧
+      (ZoneAnswersTyped ctx.zones → ∀ rr ∈ rrs, rr.rtype = RT_NS) := by
+  cases fuel with
+  | zero => rw [resolveLocal_zero] at h; cases h
+  | succ n =>
+    rw [resolveLocal_succ] at h
+    obtain ⟨z, soa, first, rest, hs, hrrs, hres, hsoa, hd⟩ := localStep_delegation h
+    have hown := (Zones.resolve_owned hres).delegation rrs rfl
+    refine ⟨z, soa, hs, hsoa, hres, hown.1, ?_, by rw [hd], ?_⟩
+    · intro rr hrr
+      rw [hd]
+      exact hown.2 rr hrr first (by rw [hrrs]; simp)
+    · intro hz rr hrr
+      exact (hz _ _ _ _ hres).delegation rrs rfl rr hrr
+
+/-! ## 1'. Everything an authoritative zone says is said by that zone alone
+
+  `authVerdict zr soa` (Proofs/ResolverLocalLemmas.lean) is a function of the zone's verdict and SOA
+  only: answer ↦ authoritative answer, name error ↦ authoritative name error, referral ↦ local
+  referral carrying the SOA. -/
+
+/-- When the most specific zone enclosing the name is authoritative and its verdict is not an
+    alias (and not the modelled panic), the local outcome is `authVerdict` of that verdict: no
+    cache read, no cache write, no other zone, for any cache contents and clock reading. -/
+theorem C01_auth_zone_alone (fuel : Nat) (ctx : Ctx) (q : Question) (z : Zone) (zr : ZoneResult) (soa : RR)
+    (hl : ctx.stack.length ≠ RECURSION_LIMIT) (hd : q ∉ ctx.stack)
+    (hz : ctx.zones.resolve q.name q.qtype = some (z, some zr)) (hs : z.soaRR = some soa)
+    (hnc : ∀ c rr, zr ≠ .cname c rr) (hnp : zr ≠ .panic) :
+    resolveLocal (fuel + 1) ctx q = (ctx, authVerdict zr soa) := by
+  rw [resolveLocal_succ]; exact localStep_zone_auth hl hd hz hs hnc hnp
+
+/-- … and every such reply is marked authoritative (answer, empty answer, referral) or is the
+    authoritative name error. -/
+theorem C01_auth_zone_reply_authoritative (fuel : Nat) (ctx : Ctx) (q : Question) (z : Zone)
+    (zr : ZoneResult) (soa : RR) (hl : ctx.stack.length ≠ RECURSION_LIMIT) (hd : q ∉ ctx.stack)
+    (hz : ctx.zones.resolve q.name q.qtype = some (z, some zr)) (hs : z.soaRR = some soa)
+    (hnc : ∀ c rr, zr ≠ .cname c rr) (hnp : zr ≠ .panic) (r : LocalResult)
+    (hr : (resolveLocal (fuel + 1) ctx q).2 = .ok r) :
+    (∃ rrs, r.toResolved = .authoritative rrs soa) ∨ r.toResolved = .authoritativeNameError soa := by
+  rw [C01_auth_zone_alone fuel ctx q z zr soa hl hd hz hs hnc hnp] at hr
+  cases zr with
+  | answer rrs => cases hr; exact Or.inl ⟨rrs, rfl⟩
+  | cname c rr => exact absurd rfl (hnc c rr)
+  | delegation ns =>
+    cases ns with
+    | nil => cases hr
+    | cons f rest => cases hr; exact Or.inl ⟨f :: rest, rfl⟩
+  | nameError => cases hr; exact Or.inr rfl
+  | panic => exact absurd rfl hnp
+
+/-! ## 1''. The alias branch: authority is inherited from the alias TARGET
+
+  FINDING (model = Rust `resolve_local`, `ZoneResult::CNAME` arm).  When the zone's verdict is an
+  alias, the reply always starts with the zone's CNAME record, but whether it is marked
+  authoritative — and whose SOA it carries — is decided by the resolution of the target, not by the
+  zone owning the alias.  The Rust comment ("authoritative if and only if this starting zone is
+  authoritative") describes something else.  Consequences, both exhibited below on concrete data:
+  (a) an alias in an AUTHORITATIVE zone whose target is outside every authoritative zone yields a
+      NON-authoritative reply (`C01_auth_zone_reply_marked_authoritative_refuted`);
+  (b) an alias in a NON-authoritative zone whose target lies in an authoritative zone yields a reply
+      marked authoritative with the target zone's SOA (`Ex.run_a`). -/
+
+theorem C01_zone_cname_result (fuel : Nat) (ctx : Ctx) (q : Question) (z : Zone) (c : Name) (rr : RR)
+    (hl : ctx.stack.length ≠ RECURSION_LIMIT) (hd : q ∉ ctx.stack)
+    (hz : ctx.zones.resolve q.name q.qtype = some (z, some (.cname c rr))) :
+    resolveLocal (fuel + 1) ctx q =
+      ((resolveLocal fuel (ctx.push q) { name := c, qtype := q.qtype, qclass := q.qclass }).1.pop,
+       .ok (zoneCnameAnswer rr { name := c, qtype := q.qtype, qclass := q.qclass }
+         (resolveLocal fuel (ctx.push q) { name := c, qtype := q.qtype, qclass := q.qclass }).2)) := by
+  rw [resolveLocal_succ]; exact localStep_zone_cname hl hd hz
+
+/-- the reply to an aliased name never fails and starts with the zone's own CNAME record; it is
+    authoritative (with SOA `soa`) exactly when following the target ended authoritatively with
+    that SOA. -/
+theorem C01_zone_cname_head (fuel : Nat) (ctx : Ctx) (q : Question) (z : Zone) (c : Name) (rr : RR)
+    (hl : ctx.stack.length ≠ RECURSION_LIMIT) (hd : q ∉ ctx.stack)
+    (hz : ctx.zones.resolve q.name q.qtype = some (z, some (.cname c rr))) :
+    ∃ r, (resolveLocal (fuel + 1) ctx q).2 = .ok r ∧ (∃ rest, r.toResolved.rrs = rr :: rest) ∧
+      ∀ rrs soa, r.toResolved = .authoritative rrs soa ↔
+        ((∃ cr, (resolveLocal fuel (ctx.push q) { name := c, qtype := q.qtype, qclass := q.qclass }).2 =
+            .ok (.done (.authoritative cr soa)) ∧ rrs = rr :: cr) ∨
+         ((resolveLocal fuel (ctx.push q) { name := c, qtype := q.qtype, qclass := q.qclass }).2 =
+            .ok (.done (.authoritativeNameError soa)) ∧ rrs = [rr])) := by
+  rw [C01_zone_cname_result fuel ctx q z c rr hl hd hz]
+  exact ⟨_, rfl, zoneCnameAnswer_head _ _ _, fun rrs soa => zoneCnameAnswer_authoritative_iff _ _ _ rrs soa⟩
+
+/-- NOT PROVED — REFUTED.  "Whenever the most specific zone enclosing the name is authoritative,
+    the reply is marked authoritative (or is the authoritative name error)." -/
+def C01_auth_zone_reply_marked_authoritative_statement : Prop :=
+  ∀ (fuel : Nat) (ctx : Ctx) (q : Question) (z : Zone) (zr : ZoneResult) (soa : RR) (r : LocalResult),
+    ctx.stack = [] → ctx.zones.resolve q.name q.qtype = some (z, some zr) → z.soaRR = some soa →
+    zr ≠ .panic → (resolveLocal (fuel + 1) ctx q).2 = .ok r →
+    (∃ rrs s, r.toResolved = .authoritative rrs s) ∨ (∃ s, r.toResolved = .authoritativeNameError s)
+
+/-- Counterexample: zone `e.` (authoritative) holds `d.e. CNAME o.`; nothing local knows `o.`.
+    The reply to `d.e. A` is the CNAME record alone, NOT marked authoritative, without SOA
+    (`Ex.run_d_cold`; with `o. A` in the cache the reply is complete and still non-authoritative,
+    `Ex.run_d_warm`). -/
+theorem C01_auth_zone_reply_marked_authoritative_refuted :
+    ¬ C01_auth_zone_reply_marked_authoritative_statement := by
+  intro h
+  have := h 32 Ex.ctx0 (Ex.qA Ex.nDE) Ex.zoneE _ Ex.soaRRE _ rfl Ex.resolve_d rfl (by simp) Ex.run_d_cold
+  rcases this with ⟨rrs, s, h⟩ | ⟨s, h⟩ <;> simp [LocalResult.toResolved] at h
+
+/-! ## 7. No upstream server is contacted for a question local data answers
+
+  `Run.log` lists every exchange with an upstream server; `Run.empty` has the empty log. -/
+
+/-- In recursive and in forwarding mode a finished local result (`.done`) is the reply: same
+    records, same authority, the exchange log is still empty and no time has passed — for ANY
+    upstream oracle. -/
+theorem C01_local_done_no_upstream (rcfg : RecCfg) (fcfg : FwdCfg) (ctx : Ctx) (q : Question)
+    (res : ResolvedRecord) (hl : ctx.stack.length ≠ RECURSION_LIMIT) (hd : q ∉ ctx.stack)
+    (h : (resolveLocal (RECURSION_LIMIT + 1) ctx q).2 = .ok (.done res)) :
+    (resolveRecursive rcfg ctx q).2 = .ok res ∧ (resolveRecursive rcfg ctx q).1.run = Run.empty ∧
+    (resolveForwarding fcfg ctx q).2 = .ok res ∧ (resolveForwarding fcfg ctx q).1.run = Run.empty ∧
+    (resolveAuthoritativeOnly ctx q).2 = .ok res := by
+  rw [resolveRecursive_of_local_done rcfg ctx q res hl hd h,
+    resolveForwarding_of_local_done fcfg ctx q res hl hd h]
+  refine ⟨rfl, rfl, rfl, rfl, ?_⟩
+  unfold resolveAuthoritativeOnly
+  simp only [h]; rfl
+
+/-- Authoritative answers, authoritative name errors and exact non-authoritative local records are
+    the reply in all three modes, whatever the cache holds and whatever upstream would say; no
+    upstream server is contacted. -/
+theorem C01_local_data_wins_all_modes (rcfg : RecCfg) (fcfg : FwdCfg) (ctx : Ctx) (q : Question) (z : Zone)
+    (hl : ctx.stack.length ≠ RECURSION_LIMIT) (hd : q ∉ ctx.stack) :
+    (∀ rrs soa, ctx.zones.resolve q.name q.qtype = some (z, some (.answer rrs)) → z.soaRR = some soa →
+      (resolveRecursive rcfg ctx q).2 = .ok (.authoritative rrs soa) ∧
+      (resolveRecursive rcfg ctx q).1.run = Run.empty ∧
+      (resolveForwarding fcfg ctx q).2 = .ok (.authoritative rrs soa) ∧
+      (resolveForwarding fcfg ctx q).1.run = Run.empty) ∧
+    (∀ soa, ctx.zones.resolve q.name q.qtype = some (z, some .nameError) → z.soaRR = some soa →
+      (resolveRecursive rcfg ctx q).2 = .ok (.authoritativeNameError soa) ∧
+      (resolveRecursive rcfg ctx q).1.run = Run.empty ∧
+      (resolveForwarding fcfg ctx q).2 = .ok (.authoritativeNameError soa) ∧
+      (resolveForwarding fcfg ctx q).1.run = Run.empty) ∧
+    (∀ rrs, ctx.zones.resolve q.name q.qtype = some (z, some (.answer rrs)) → z.soaRR = none →
+      q.qtype ≠ QTYPE_WILDCARD → rrs ≠ [] →
+      (resolveRecursive rcfg ctx q).2 = .ok (.nonAuthoritative rrs none) ∧
+      (resolveRecursive rcfg ctx q).1.run = Run.empty ∧
+      (resolveForwarding fcfg ctx q).2 = .ok (.nonAuthoritative rrs none) ∧
+      (resolveForwarding fcfg ctx q).1.run = Run.empty) := by
+  refine ⟨fun rrs soa hz hs => ?_, fun soa hz hs => ?_, fun rrs hz hs hq hne => ?_⟩
+  · have h := C01_local_done_no_upstream rcfg fcfg ctx q _ hl hd
+      (by rw [C01_auth_answer_independent _ ctx q z rrs soa hl hd hz hs])
+    exact ⟨h.1, h.2.1, h.2.2.1, h.2.2.2.1⟩
+  · have h := C01_local_done_no_upstream rcfg fcfg ctx q _ hl hd
+      (by rw [C01_auth_nameerror _ ctx q z soa hl hd hz hs])
+    exact ⟨h.1, h.2.1, h.2.2.1, h.2.2.2.1⟩
+  · have h := C01_local_done_no_upstream rcfg fcfg ctx q _ hl hd
+      (by rw [C01_nonauth_exact _ ctx q z rrs hl hd hz hs hq hne])
+    exact ⟨h.1, h.2.1, h.2.2.1, h.2.2.2.1⟩
+
+/-! ## 3'. … in every mode
+
+  Whatever the upstream oracle answers (including replies with RCODE NameError), a reply produced by
+  the recursive or forwarding resolver is either the finished local result or of the
+  `NonAuthoritative` kind (RCODE NoError). -/
+
+theorem C01_authoritative_only_from_local (rcfg : RecCfg) (fcfg : FwdCfg) (ctx : Ctx) (q : Question)
+    (r : ResolvedRecord) :
+    ((resolveRecursive rcfg ctx q).2 = .ok r →
+      (resolveLocal (RECURSION_LIMIT + 1) ctx q).2 = .ok (.done r) ∨ r.isNonAuth) ∧
+    ((resolveForwarding fcfg ctx q).2 = .ok r →
+      (resolveLocal (RECURSION_LIMIT + 1) ctx q).2 = .ok (.done r) ∨ r.isNonAuth) :=
+  ⟨resolveRecursive_ok rcfg ctx q r, resolveForwarding_ok fcfg ctx q r⟩
+
+/-- A name error is only ever reported — in authoritative-only, recursive and forwarding mode, for
+    any upstream behaviour — when the most specific local zone enclosing the name is authoritative
+    and says so; the SOA reported is that zone's. -/
+theorem C01_nameerror_only_authoritative_all_modes (rcfg : RecCfg) (fcfg : FwdCfg) (ctx : Ctx)
+    (q : Question) (soa : RR)
+    (h : (resolveRecursive rcfg ctx q).2 = .ok (.authoritativeNameError soa) ∨
+         (resolveForwarding fcfg ctx q).2 = .ok (.authoritativeNameError soa) ∨
+         (resolveAuthoritativeOnly ctx q).2 = .ok (.authoritativeNameError soa)) :
+    ∃ z, ctx.zones.resolve q.name q.qtype = some (z, some .nameError) ∧ z.soaRR = some soa := by
+  rcases h with h | h | h
+  · rcases resolveRecursive_ok rcfg ctx q _ h with h | h
+    · exact C01_nameerror_only_authoritative _ ctx q _ soa h rfl
+    · exact absurd h (by simp [ResolvedRecord.isNonAuth])
+  · rcases resolveForwarding_ok fcfg ctx q _ h with h | h
+    · exact C01_nameerror_only_authoritative _ ctx q _ soa h rfl
+    · exact absurd h (by simp [ResolvedRecord.isNonAuth])
+  · exact C01_nameerror_only_authoritative_mode ctx q soa h
+
+/-- Local resolution hands over a *partial* answer — the outcome that makes the recursive and
+    forwarding resolvers ask upstream for more records of the same name — only for an ANY question. -/
+theorem C01_partial_only_any (fuel : Nat) (ctx : Ctx) (q : Question) (rrs : List RR)
+    (hq : q.qtype ≠ QTYPE_WILDCARD) : (resolveLocal fuel ctx q).2 ≠ .ok (.partialAnswer rrs) :=
+  resolveLocal_partial_only_any fuel ctx q rrs hq
+
+/-! ## Non-vacuity: the hypotheses of the theorems above are met by concrete data
+  (fixtures: Proofs/ResolverLocalExamples.lean — zone `e.` with SOA, a hosts-like SOA-less root zone,
+  a cache holding records that conflict with both). -/
+
+/-- `w.e. A`: answered from the authoritative zone although the cache holds `w.e. A 66`. -/
+example : resolveLocal 33 Ex.ctx1 (Ex.qA Ex.nWE) =
+    (Ex.ctx1, .ok (.done (.authoritative [Ex.rrW] Ex.soaRRE))) :=
+  C01_auth_answer_independent 32 Ex.ctx1 (Ex.qA Ex.nWE) Ex.zoneE [Ex.rrW] Ex.soaRRE (by decide) (by decide)
+    Ex.resolve_w rfl
+
+example : (resolveLocal 33 Ex.ctx1 (Ex.qA Ex.nWE)).2 = (resolveLocal 33 Ex.ctx0 (Ex.qA Ex.nWE)).2 :=
+  C01_auth_answer_any_cache 32 32 Ex.ctx0 Ex.ctx1 (Ex.qA Ex.nWE) Ex.zoneE [Ex.rrW] Ex.soaRRE (by decide)
+    (by decide) Ex.resolve_w rfl rfl rfl
+
+/-- `x.e. A`: name error on the word of `e.`. -/
+example : resolveLocal 33 Ex.ctx1 (Ex.qA Ex.nXE) =
+    (Ex.ctx1, .ok (.done (.authoritativeNameError Ex.soaRRE))) :=
+  C01_auth_nameerror 32 Ex.ctx1 (Ex.qA Ex.nXE) Ex.zoneE Ex.soaRRE (by decide) (by decide) Ex.resolve_x rfl
+
+example : resolveAuthoritativeOnly Ex.ctx1 (Ex.qA Ex.nXE) = (Ex.ctx1, .ok (.authoritativeNameError Ex.soaRRE)) :=
+  (C01_auth_only_mode Ex.ctx1 (Ex.qA Ex.nXE) Ex.zoneE Ex.soaRRE (by decide) (by decide) rfl).2 Ex.resolve_x
+
+/-- `h. A`: the hosts entry `h. A 9` is returned exactly although the cache holds `h. A 8`. -/
+example : resolveLocal 33 Ex.ctx1 (Ex.qA Ex.nH) = (Ex.ctx1, .ok (.done (.nonAuthoritative [Ex.rrH] none))) :=
+  C01_nonauth_exact 32 Ex.ctx1 (Ex.qA Ex.nH) Ex.zoneH [Ex.rrH] (by decide) (by decide) Ex.resolve_h rfl
+    (by decide) (by simp)
+
+/-- the hypotheses of `C01_nonauth_any` (`h. ANY`) are satisfiable. -/
+example : ∃ z rrs, Ex.ctx1.zones.resolve Ex.nH QTYPE_WILDCARD = some (z, some (.answer rrs)) ∧ z.soaRR = none :=
+  ⟨Ex.zoneH, [Ex.rrH], Ex.resolve_h_any, rfl⟩
+
+/-- `C01_nameerror_only_authoritative` is not vacuous: a name error does occur. -/
+example : ∃ r soa, (resolveLocal 33 Ex.ctx1 (Ex.qA Ex.nXE)).2 = .ok r ∧ r.toResolved = .authoritativeNameError soa :=
+  ⟨_, Ex.soaRRE, by rw [C01_auth_nameerror 32 Ex.ctx1 (Ex.qA Ex.nXE) Ex.zoneE Ex.soaRRE (by decide) (by decide)
+    Ex.resolve_x rfl], rfl⟩
+
+/-- `ZonesKeyed` holds of the fixture; `w.e.` selects `e.`, not the (also enclosing) root zone. -/
+example : Ex.zoneE.apex.labels <:+ Ex.nWE.labels ∧
+    ∀ k z', Zones.lookup Ex.zones.zones k = some z' → Name.fromLabels k.labels = some k →
+      k.labels <:+ Ex.nWE.labels → k.labels.length ≤ Ex.zoneE.apex.labels.length :=
+  ⟨(C01_longest_suffix Ex.zones Ex.zones_keyed Ex.nWE Ex.zoneE Ex.get_w).2.1,
+   (C01_longest_suffix Ex.zones Ex.zones_keyed Ex.nWE Ex.zoneE Ex.get_w).2.2.2⟩
+
+/-- `x.s.e. A`: a referral out of `e.` (hypothesis of `C01_delegation_shape` satisfiable). -/
+example : (resolveLocal 33 Ex.ctx1 (Ex.qA Ex.nXSE)).2 =
+    .ok (.delegation [Ex.rrS] (some Ex.soaRRE) { hostnames := [Ex.nNO], name := Ex.nSE }) := by
+  rw [C01_auth_zone_alone 32 Ex.ctx1 (Ex.qA Ex.nXSE) Ex.zoneE _ Ex.soaRRE (by decide) (by decide) Ex.resolve_xs rfl
+    (by simp) (by simp)]
+  rfl
 
 end Resolved
